@@ -123,3 +123,4 @@ fn weed_wrapper_minfreq0() { weed_wrapper::<2, 0>(); }
 #[kani::proof]
 #[kani::unwind(5)]
 fn weed_wrapper_minfreq09() { weed_wrapper::<1, 9>(); }
+
